@@ -68,3 +68,33 @@ package lastgersync
 //@   ensures[removal-deletes-every-row-of-that-root] (result == nil && event.IsRemove) ==> forall(b, int, gerHas[b] == (old(gerHas)[b] && old(gerRootAt)[b] != event.GlobalExitRoot)) && gerRootAt == old(gerRootAt) && gerIdxAt == old(gerIdxAt)
 //@   ensures[insertion-adds-exactly-this-row] (result == nil && !event.IsRemove) ==> gerHas == upd(old(gerHas), event.BlockNum, true) && gerRootAt == upd(old(gerRootAt), event.BlockNum, event.GlobalExitRoot) && gerIdxAt == upd(old(gerIdxAt), event.BlockNum, event.L1InfoTreeIndex)
 //@   ensures[failure-changes-nothing] result != nil ==> gerHas == old(gerHas) && gerRootAt == old(gerRootAt) && gerIdxAt == old(gerIdxAt)
+
+// ---- one L2 block is applied atomically (C07, C16): committed only if every statement succeeded, rolled back otherwise
+//@ func (p *processor) ProcessBlock
+//@   props C07 C16
+//@   sqltext "INSERT INTO block (num, hash) VALUES ($1, $2)"
+//@   requires p != nil && p.database != nil && p.log != nil
+//@   requires lastTx < heapTop
+//@   modifies heap, lastTx, stmtFail, gerHas, gerRootAt, gerIdxAt
+//@   ensures[all-or-nothing] lastTx != old(lastTx) ==> ((result == nil ==> txState(lastTx) == 1) && (result != nil ==> txState(lastTx) == 2))
+//@   ensures[no-transaction-no-success] lastTx == old(lastTx) ==> result != nil
+//@   ensures[committed-only-if-every-statement-succeeded] result == nil ==> stmtFail == old(stmtFail)
+//@   loop 0 invariant p.log == old(p.log) && p.log != nil
+//@   loop 0 invariant stmtFail == old(stmtFail)
+//@   loop 0 invariant shouldRollback && tx != nil && lastTx == tx && tx != old(lastTx) && txState(tx) == 0
+
+// ---- the query the aggoracle / FEP resume logic relies on (C16): the pinned SELECT returns, among the rows present,
+// one with the smallest index at or above the requested one; no row at or above it is the only reason for "not found"
+//@ extern github.com/russross/meddler.QueryRow@lastgersync.(*processor).GetFirstGERAfterL1InfoTreeIndex (db, dst, query, args)
+//@   modifies *cast(dst, *GlobalExitRootInfo)
+//@   ensures result == nil ==> exists(b, int, gerHas[b] && gerIdxAt[b] == cast(dst, *GlobalExitRootInfo).L1InfoTreeIndex && gerRootAt[b] == cast(dst, *GlobalExitRootInfo).GlobalExitRoot) && cast(dst, *GlobalExitRootInfo).L1InfoTreeIndex >= unbox(args[0], uint32) && forall(b, int, (gerHas[b] && gerIdxAt[b] >= unbox(args[0], uint32)) ==> gerIdxAt[b] >= cast(dst, *GlobalExitRootInfo).L1InfoTreeIndex)
+//@   ensures (result != nil && isErr(result, sql.ErrNoRows)) ==> forall(b, int, gerHas[b] ==> gerIdxAt[b] < unbox(args[0], uint32))
+
+//@ func (p *processor) GetFirstGERAfterL1InfoTreeIndex
+//@   props C16
+//@   sqltext "SELECT l1_info_tree_index, global_exit_root FROM imported_global_exit_root WHERE l1_info_tree_index >= $1 ORDER BY l1_info_tree_index ASC LIMIT 1;"
+//@   requires p != nil
+//@   modifies nothing
+//@   ensures[a-present-row-at-or-above] result1 == nil ==> result0.L1InfoTreeIndex >= l1InfoTreeIndex && exists(b, int, gerHas[b] && gerIdxAt[b] == result0.L1InfoTreeIndex && gerRootAt[b] == result0.GlobalExitRoot)
+//@   ensures[the-first-such-row] result1 == nil ==> forall(b, int, (gerHas[b] && gerIdxAt[b] >= l1InfoTreeIndex) ==> gerIdxAt[b] >= result0.L1InfoTreeIndex)
+//@   ensures[not-found-only-if-none-exists] result1 == db.ErrNotFound ==> forall(b, int, gerHas[b] ==> gerIdxAt[b] < l1InfoTreeIndex)
